@@ -54,28 +54,59 @@ theorem idxOf_le (f : Char → Bool) (s : Str) : idxOf f s ≤ s.length := by
   | cons c cs ih => simp only [idxOf]; split <;> simp <;> omega
 
 
-structure Good (start : Nat) (rest : Str) (s : ScanStep) : Prop where
+/-- every token of an error mark is a fixed text token, in range when the mark is put
+    inside the text -/
+theorem latexErrorToks_all (T : Tables) (e : Str) (start n : Nat) :
+    ∀ t ∈ latexErrorToks T e start n, t.fix = true ∧ t.kind = .text ∧ (start < n → t.pos < n) := by
+  have hl : 2 ≤ (errMark T e).length := by simp [errMark]; omega
+  unfold latexErrorToks
+  simp only []
+  split
+  · intro t ht
+    simp only [List.mem_cons, List.not_mem_nil, or_false] at ht
+    rcases ht with rfl | rfl
+    · exact ⟨rfl, rfl, fun h => h⟩
+    · refine ⟨rfl, rfl, fun h => ?_⟩
+      show start + min _ _ - 1 < n
+      omega
+  · intro t ht
+    simp only [List.mem_cons, List.not_mem_nil, or_false] at ht
+    subst ht
+    exact ⟨rfl, rfl, fun h => h⟩
+
+/-- the mark is never empty -/
+theorem latexErrorToks_cons (T : Tables) (e : Str) (start n : Nat) :
+    (latexErrorToks T e start n).headD default :: (latexErrorToks T e start n).tail =
+      latexErrorToks T e start n := by
+  unfold latexErrorToks
+  simp only []
+  split <;> rfl
+
+structure Good (n : Nat) (start : Nat) (rest : Str) (s : ScanStep) : Prop where
   len_pos : 1 ≤ s.len
   len_le : s.len ≤ rest.length
   ok : s.diag = none → s.tok.fix = false ∧ start ≤ s.tok.pos ∧ s.tok.pos < start + s.len ∧
         s.tok.pos + s.tok.txt.length ≤ start + s.len ∧
         (rest.drop (s.tok.pos - start)).take s.tok.txt.length = s.tok.txt
   err : s.diag ≠ none → s.tok.fix = true ∧ s.tok.pos = start ∧ s.tok.kind = .text
+  ext : ∀ t ∈ s.extra, t.fix = true ∧ t.kind = .text ∧ (start < n → t.pos < n)
 
-theorem good_prefix (start : Nat) (rest : Str) (kind : Kind) (k : Nat) (h1 : 1 ≤ k)
+theorem good_prefix {n : Nat} (start : Nat) (rest : Str) (kind : Kind) (k : Nat) (h1 : 1 ≤ k)
     (hk : k ≤ rest.length) :
-    Good start rest { tok := { kind := kind, pos := start, txt := rest.take k }, len := k } := by
+    Good n start rest { tok := { kind := kind, pos := start, txt := rest.take k }, len := k } := by
   constructor <;> simp <;> omega
 
-theorem good_prefix' (start : Nat) (rest : Str) (kind : Kind) (t : Str) (h1 : 1 ≤ t.length)
+theorem good_prefix' {n : Nat} (start : Nat) (rest : Str) (kind : Kind) (t : Str) (h1 : 1 ≤ t.length)
     (hk : t.length ≤ rest.length) (ht : rest.take t.length = t) :
-    Good start rest { tok := { kind := kind, pos := start, txt := t }, len := t.length } := by
+    Good n start rest { tok := { kind := kind, pos := start, txt := t }, len := t.length } := by
   constructor <;> simp <;> first | omega | exact ⟨by omega, ht⟩
 
 theorem good_err (T : Tables) (e : Str) (src : Str) (start : Nat) (rest : Str) (k : Nat) (h1 : 1 ≤ k)
     (hk : k ≤ rest.length) :
-    Good start rest { tok := (latexErrorToks T e start src.length).headD default,
-                      len := k, diag := some (latexErrorDiag e start src) } := by
+    Good src.length start rest
+      ({ tok := (latexErrorToks T e start src.length).headD default,
+         len := k, diag := some (latexErrorDiag e start src),
+         extra := (latexErrorToks T e start src.length).tail } : ScanStep) := by
   constructor
   · exact h1
   · exact hk
@@ -83,6 +114,8 @@ theorem good_err (T : Tables) (e : Str) (src : Str) (start : Nat) (rest : Str) (
   · intro _
     simp only [latexErrorToks]
     split <;> simp
+  · intro t ht
+    exact latexErrorToks_all T e start src.length t (List.mem_of_mem_tail ht)
 
 theorem length_takeWhile_le' (p : Char → Bool) (l : Str) : (l.takeWhile p).length ≤ l.length :=
   (List.takeWhile_sublist p).length_le
@@ -95,8 +128,8 @@ theorem take_length_takeWhile (p : Char → Bool) (l : Str) :
     simp only [List.takeWhile_cons]
     split <;> simp [ih]
 
-theorem scanSpace_good (start : Nat) (c : Char) (cs : Str) (hc : isSpace c = true) :
-    Good start (c :: cs) (scanSpace start (c :: cs)) := by
+theorem scanSpace_good {n : Nat} (start : Nat) (c : Char) (cs : Str) (hc : isSpace c = true) :
+    Good n start (c :: cs) (scanSpace start (c :: cs)) := by
   unfold scanSpace
   apply good_prefix'
   · simp [hc]
@@ -118,14 +151,14 @@ theorem commentLen_bounds (c : Char) (cs : Str) :
       simp at this
       omega
 
-theorem scanComment_good (start : Nat) (c : Char) (cs : Str) :
-    Good start (c :: cs) (scanComment start (c :: cs)) := by
+theorem scanComment_good {n : Nat} (start : Nat) (c : Char) (cs : Str) :
+    Good n start (c :: cs) (scanComment start (c :: cs)) := by
   unfold scanComment
   have := commentLen_bounds c cs
   exact good_prefix _ _ _ _ this.1 this.2
 
-theorem scanArgToken_good (T : Tables) (start : Nat) (c : Char) (cs : Str) :
-    Good start (c :: cs) (scanArgToken T start (c :: cs)) := by
+theorem scanArgToken_good {n : Nat} (T : Tables) (start : Nat) (c : Char) (cs : Str) :
+    Good n start (c :: cs) (scanArgToken T start (c :: cs)) := by
   unfold scanArgToken
   split
   · apply good_prefix <;> simp
@@ -140,7 +173,7 @@ theorem scanArgToken_good (T : Tables) (start : Nat) (c : Char) (cs : Str) :
 
 
 theorem scanVerb_good (T : Tables) (src : Str) (start : Nat) (rest : Str) (h5 : 5 ≤ rest.length) :
-    Good start rest (scanVerb T src start rest) := by
+    Good src.length start rest (scanVerb T src start rest) := by
   unfold scanVerb
   simp only []
   split
@@ -167,6 +200,7 @@ theorem scanVerb_good (T : Tables) (src : Str) (start : Nat) (rest : Str) (h5 : 
           simp [hb]
           omega
         · simp
+        · simp
 
 theorem sBegin_length : sBegin.length = 6 := by decide
 theorem sVerbatimArg_length : sVerbatimArg.length = 10 := by decide
@@ -174,14 +208,14 @@ theorem sEndVerbatim_length : sEndVerbatim.length = 14 := by decide
 
 theorem scanVerbatim_good (T : Tables) (src : Str) (start : Nat) (rest : Str)
     (h6 : rest.take 6 = sBegin) :
-    Good start rest (scanVerbatim T src start rest) := by
+    Good src.length start rest (scanVerbatim T src start rest) := by
   have hl : 6 ≤ rest.length := by
     have := congrArg List.length h6
     rw [sBegin_length] at this; simp at this; omega
   unfold scanVerbatim
   simp only []
   split
-  · have := good_prefix' start rest .xbegin sBegin (by rw [sBegin_length]; omega)
+  · have := good_prefix' (n := src.length) start rest .xbegin sBegin (by rw [sBegin_length]; omega)
       (by rw [sBegin_length]; exact hl) (by rw [sBegin_length]; exact h6)
     rw [sBegin_length] at this
     exact this
@@ -203,6 +237,7 @@ theorem scanVerbatim_good (T : Tables) (src : Str) (start : Nat) (rest : Str)
         simp
         omega
       · simp
+      · simp
 
 theorem sVerb_length : sVerb.length = 5 := by decide
 
@@ -216,7 +251,7 @@ theorem macroLen_bounds (c : Char) (cs : Str) :
   · simp; rw [Nat.add_comm]; exact Nat.succ_le_succ h1
 
 theorem scanMacro_good (T : Tables) (src : Str) (start : Nat) (c : Char) (cs : Str) :
-    Good start (c :: cs) (scanMacro T src start (c :: cs)) := by
+    Good src.length start (c :: cs) (scanMacro T src start (c :: cs)) := by
   obtain ⟨h1, h2⟩ := macroLen_bounds c cs
   unfold scanMacro
   simp only []
@@ -243,9 +278,9 @@ theorem scanMacro_good (T : Tables) (src : Str) (start : Nat) (c : Char) (cs : S
           · exact good_prefix _ _ _ _ h1 h2
           · exact good_prefix _ _ _ _ h1 h2
 
-theorem good_special (T : Tables) (h : T.WFScan) (start : Nat) (rest t : Str)
+theorem good_special {n : Nat} (T : Tables) (h : T.WFScan) (start : Nat) (rest t : Str)
     (hm : matchSpecial T rest = some t) :
-    Good start rest { tok := { kind := .special, pos := start, txt := t }, len := t.length } := by
+    Good n start rest { tok := { kind := .special, pos := start, txt := t }, len := t.length } := by
   unfold matchSpecial at hm
   have hmem := List.mem_of_find?_eq_some hm
   have hp := List.find?_some hm
@@ -256,13 +291,13 @@ theorem good_special (T : Tables) (h : T.WFScan) (start : Nat) (rest t : Str)
   | nil => exact absurd rfl hne
   | cons => simp
 
-theorem good_text (start : Nat) (c : Char) (cs : Str) :
-    Good start (c :: cs) { tok := { kind := .text, pos := start, txt := [c] }, len := 1 } := by
-  have := good_prefix start (c :: cs) .text 1 (by omega) (by simp)
+theorem good_text {n : Nat} (start : Nat) (c : Char) (cs : Str) :
+    Good n start (c :: cs) { tok := { kind := .text, pos := start, txt := [c] }, len := 1 } := by
+  have := good_prefix (n := n) start (c :: cs) .text 1 (by omega) (by simp)
   simpa using this
 
 theorem nextToken_good (T : Tables) (h : T.WFScan) (src : Str) (start : Nat) (rest : Str)
-    (hr : rest ≠ []) : Good start rest (nextToken T src start rest) := by
+    (hr : rest ≠ []) : Good src.length start rest (nextToken T src start rest) := by
   unfold nextToken
   split
   · exact absurd rfl hr
@@ -319,12 +354,13 @@ theorem scanSteps_spec (T : Tables) (h : T.WFScan) (src : Str) :
 
 theorem scan_steps (T : Tables) (h : T.WFScan) (src : Str) :
     ∀ t ∈ (scan T src).toks, ∃ (p : Nat) (r : Str), r ≠ [] ∧ src.drop p = r ∧
-      p + r.length = src.length ∧ t = (nextToken T src p r).tok := by
+      p + r.length = src.length ∧
+      (t = (nextToken T src p r).tok ∨ t ∈ (nextToken T src p r).extra) := by
   intro t ht
-  simp only [scan, List.mem_map] at ht
-  obtain ⟨s, hs, rfl⟩ := ht
+  simp only [scan, List.mem_flatten, List.mem_map] at ht
+  obtain ⟨l, ⟨s, hs, rfl⟩, ht⟩ := ht
   obtain ⟨p, r, pre, hr, he, hp, rfl⟩ := (scanSteps_spec T h src src.length 0 src (Nat.le_refl _)).2.2 s hs
-  refine ⟨p, r, hr, ?_, ?_, rfl⟩
+  refine ⟨p, r, hr, ?_, ?_, List.mem_cons.mp ht⟩
   · have : p = pre.length := by omega
     rw [he, this]; simp
   · rw [he, List.length_append]; omega
@@ -369,16 +405,16 @@ theorem nextToken_err (T : Tables) (src : Str) (start : Nat) (rest : Str)
   · exact absurd rfl hr
   · rename_i c cs
     split
-    · rename_i hc; exact (scanSpace_good _ _ _ hc).err
+    · rename_i hc; exact (scanSpace_good (n := 0) _ _ _ hc).err
     · split
-      · exact (scanComment_good _ _ _).err
+      · exact (scanComment_good (n := 0) _ _ _).err
       · split
-        · exact (scanArgToken_good _ _ _ _).err
+        · exact (scanArgToken_good (n := 0) _ _ _ _).err
         · split
           · intro h; exact absurd rfl h
           · split
             · exact (scanMacro_good _ _ _ _ _).err
-            · exact (good_text start c cs).err
+            · exact (good_text (n := 0) start c cs).err
 
 theorem scanner_find?_sorted {α} (p : α → Bool) (R : α → α → Prop) (hR : ∀ a, R a a) :
     ∀ (l : List α) (t : α), l.Pairwise R → l.find? p = some t →
@@ -424,7 +460,15 @@ theorem matchSpecial_none (T : Tables) (h : T.WFScan) (rest : Str)
 theorem scan_inRange (T : Tables) (h : T.WFScan) (src : Str) :
     ∀ t ∈ (scan T src).toks, TokInRange src.length t := by
   intro t ht
-  obtain ⟨p, r, hr, hd, hl, rfl⟩ := scan_steps T h src t ht
+  obtain ⟨p, r, hr, hd, hl, rfl | hx⟩ := scan_steps T h src t ht
+  rotate_left
+  · have hrl : 1 ≤ r.length := by
+      cases r with
+      | nil => exact absurd rfl hr
+      | cons => simp
+    obtain ⟨a, _, c⟩ := (nextToken_good T h src p r hr).ext t hx
+    refine ⟨c (by omega), fun hf => ?_⟩
+    rw [a] at hf; exact absurd hf (by simp)
   have hg := nextToken_good T h src p r hr
   have h2 := hg.len_le
   have hrl : 1 ≤ r.length := by
@@ -444,7 +488,10 @@ theorem scan_slice (T : Tables) (h : T.WFScan) (src : Str) :
     ∀ t ∈ (scan T src).toks, t.fix = false →
       (src.drop t.pos).take t.txt.length = t.txt := by
   intro t ht hfix
-  obtain ⟨p, r, hr, hd, hl, rfl⟩ := scan_steps T h src t ht
+  obtain ⟨p, r, hr, hd, hl, rfl | hx⟩ := scan_steps T h src t ht
+  rotate_left
+  · obtain ⟨a, _⟩ := (nextToken_good T h src p r hr).ext t hx
+    rw [a] at hfix; exact absurd hfix (by simp)
   have hg := nextToken_good T h src p r hr
   by_cases hdg : (nextToken T src p r).diag = none
   · obtain ⟨a, b, c, d, e⟩ := hg.ok hdg
@@ -459,5 +506,33 @@ theorem scan_slice (T : Tables) (h : T.WFScan) (src : Str) :
 theorem scanSpace_kind (start : Nat) (rest : Str) :
     (scanSpace start rest).tok.kind = (if countNl (rest.takeWhile isSpace) < 2 then Kind.space else Kind.par) := by
   rfl
+
+/-- the scanner puts the complete mark of `latex_error` for a bad `\verb` -/
+theorem scanVerb_err_mark (T : Tables) (src : Str) (start : Nat) (rest : Str)
+    (h : (scanVerb T src start rest).diag ≠ none) :
+    (scanVerb T src start rest).tok :: (scanVerb T src start rest).extra = latexErrorToks T errBadVerb start src.length := by
+  revert h
+  unfold scanVerb
+  simp only []
+  split
+  · intro _; exact latexErrorToks_cons ..
+  · split
+    · intro _; exact latexErrorToks_cons ..
+    · split
+      · intro _; exact latexErrorToks_cons ..
+      · intro h; exact absurd rfl h
+
+/-- the scanner puts the complete mark of `latex_error` for an unterminated verbatim environment -/
+theorem scanVerbatim_err_mark (T : Tables) (src : Str) (start : Nat) (rest : Str)
+    (h : (scanVerbatim T src start rest).diag ≠ none) :
+    (scanVerbatim T src start rest).tok :: (scanVerbatim T src start rest).extra = latexErrorToks T errMissingEndVerbatim start src.length := by
+  revert h
+  unfold scanVerbatim
+  simp only []
+  split
+  · intro h; exact absurd rfl h
+  · split
+    · intro _; exact latexErrorToks_cons ..
+    · intro h; exact absurd rfl h
 
 end Yalafi
